@@ -36,6 +36,7 @@ theorem povm_index_var_obj_var (d m i : Int) (f : Bool) (hd : 0 < d) (h0 : 0 ≤
         (convert_var_index_to_povm_index d m (d ^ (2:Nat)) i f) f = i :=
   povm_v2o d m i f hd h0 h
 
+/-- C03.4 POVM: conversely every free entry (element, coefficient) comes from exactly one variable index in range. -/
 theorem povm_index_obj_var_obj (d m : Int) (a : Int × Int) (f : Bool) (hd : 0 < d)
     (h : PovmFree d m f a) :
     (0 ≤ convert_povm_index_to_var_index d m (d ^ (2:Nat)) a f ∧
@@ -51,6 +52,7 @@ theorem gate_index_var_obj_var (d i : Int) (f : Bool) (hd : 0 < d) (h0 : 0 ≤ i
       convert_gate_index_to_var_index d (convert_var_index_to_gate_index d i f) f = i :=
   gate_v2o d i f hd h0 h
 
+/-- C03.4 gate: conversely every free entry (row ≥ 1 with the constraint) comes from exactly one variable index in range. -/
 theorem gate_index_obj_var_obj (d : Int) (a : Int × Int) (f : Bool) (hd : 0 < d) (h : GateFree d f a) :
     (0 ≤ convert_gate_index_to_var_index d a f ∧
         convert_gate_index_to_var_index d a f < num_variables_qpt d f) ∧
@@ -70,6 +72,7 @@ theorem mprocess_index_var_obj_var (d m s i : Int) (f : Bool) (hd : 0 < d) (h0 :
     cases f <;> simpa using h)
   exact this
 
+/-- C03.4 measurement process: conversely every free entry comes from exactly one variable index in range. -/
 theorem mprocess_index_obj_var_obj (d m s : Int) (a : Int × Int × Int) (f : Bool) (hd : 0 < d)
     (h : MpFree d m f a) :
     (0 ≤ convert_mprocess_index_to_var_index d a m s f ∧
@@ -804,8 +807,8 @@ theorem mprocess_stacked_derivative [CommRing K] (d m : Nat) (t : K) (v st : Lis
   rw [vadd_append _ _ _ _ htl, vadd_append _ _ _ _ (by
     have := hlastl; unfold mpLast at this; rw [this]; split <;> simp [lsmul, oneHot])]
 
-/-- C03.4 without the built-in constraint the stacked vector IS the variable vector (POVM, m-process; state and gate are
-`state_gradient_is_derivative` / `gate_gradient_is_derivative`): the derivative in coordinate `i` is `e_i`, the one-hot gradient. -/
+/-- C03.4 without the built-in constraint the stacked vector IS the variable vector (POVM, m-process) — definitional in the model
+(`…StackedOfVar … false = some var`), recorded only to complete the case split of `povm_stacked_derivative` / `mprocess_stacked_derivative`. -/
 theorem stacked_derivative_flag_off [CommRing K] (d : Nat) (sq t : K) (v : List K) (i : Nat) (hd : 0 < d) :
     povmStackedOfVar d sq (perturb v i t) false = some (vadd v (lsmul t (oneHot v.length i))) ∧
     mpStackedOfVar d (perturb v i t) false = some (vadd v (lsmul t (oneHot v.length i))) := by
@@ -819,14 +822,85 @@ example : (((([3] : List Rat)).length : Int) = num_variables_qmpt 1 2 true) ∧
     mpStackedOfVar 1 ([3] : List Rat) true = some [3, -2] ∧
     mpStackedOfVar 1 (perturb ([3] : List Rat) 0 1) true = some [4, -3] := by decide +kernel
 
-/-- C03.1 on the GENERATED flag resolution of `generate_from_var` (base class and the MProcess override): an explicitly
-requested parametrisation — `True` or `False` — is used as given; only `None` falls back to the template object's flag. -/
+/-- C03.1 flag resolution of `generate_from_var` (base class and the MProcess override): an explicitly requested parametrisation —
+`True` or `False` — is used as given; only `None` falls back to the template object's flag. NOTE: the generated definition is a fixed
+template that the translator emits only after matching the source expression (`harness/c03.py:flag_fragment`); a source edit makes the
+TRANSLATOR fail (broken obligation) rather than this proof — the content is the matcher plus the `gen_flag` correspondence. -/
 theorem generate_from_var_flag_resolution (template b : Bool) :
     resolveFlag template (some b) = b ∧ resolveFlag template none = template ∧
     resolveFlagMp template (some b) = b ∧ resolveFlagMp template none = template := by
   simp [resolveFlag, resolveFlagMp, generate_from_var_flag, generate_from_var_flag_mprocess]
 
 example : resolveFlag true (some false) = false ∧ resolveFlagMp true none = true := by decide
+
+/-- C03.3 state: a vec of length `d²` always has a variable vector, of the generated `num_variables_qst` length (both flags). -/
+theorem state_to_var_length (d : Nat) (vec : List K) (f : Bool) (hd : 0 < d) (hl : vec.length = d ^ 2) :
+    ∃ var, varOfVec vec f = some var ∧ (var.length : Int) = num_variables_qst d f := by
+  have h1 : 1 ≤ d ^ 2 := Nat.pow_pos hd
+  cases f
+  · exact ⟨vec, rfl, (nv_qst d _ false hd).2 (by simp [hl])⟩
+  · cases vec with
+    | nil => simp at hl; omega
+    | cons a t =>
+      refine ⟨t, rfl, (nv_qst d _ true hd).2 ?_⟩
+      simp at hl ⊢; omega
+
+/-- C03.1/3 measurement process WITHOUT the built-in constraint: object → var → object is the identity on every list of `m ≥ 1`
+HS matrices and `len(var) = num_variables_qmpt` (the flag-on case is `mp_hss_roundtrip`). -/
+theorem mp_hss_roundtrip_flag_off [Add K] [Sub K] [Zero K] [One K] (d m : Nat) (hss : List (List K)) (hd : 0 < d)
+    (hm : 1 ≤ m) (hl : hss.length = m) (hr : ∀ r ∈ hss, r.length = hsSize d) :
+    ∃ var, varOfHss d hss false = some var ∧ (var.length : Int) = num_variables_qmpt d m false ∧
+      hssOfVar d var false = some hss ∧ mpStackedOfVar d var false = some hss.flatten ∧
+      mpVarOfStacked d hss.flatten false = some var := by
+  have h1 : 1 ≤ d ^ 2 := Nat.pow_pos hd
+  have hH : 0 < hsSize d := by unfold hsSize; exact Nat.mul_pos h1 h1
+  have hd0 : d ≠ 0 := by omega
+  have hfl : hss.flatten.length = m * hsSize d := by rw [flatten_length_of _ hss hr, hl]
+  have hrows : rows (hsSize d) m hss.flatten = hss := by rw [← hl]; exact rows_of_flatten _ hss hr
+  have hdiv : hss.flatten.length / hsSize d = m := by rw [hfl]; exact Nat.mul_div_cancel _ hH
+  refine ⟨hss.flatten, rfl, (nv_qmpt d m _ false hd hm).2 (by simp [hfl]), ?_, by simp [mpStackedOfVar, hd0],
+    by simp [mpVarOfStacked]⟩
+  simp only [hssOfVar, hd0, ↓reduceIte, Bool.false_eq_true, hdiv, reshape2_ok _ _ _ hfl, hrows]
+
+/-- C03.2 gate: `convert_stacked_vector_to_var` on the stacked vector of ANY `d² × d²` HS array is `convert_hs_to_var` of it
+(not only on stacked vectors that came from a variable vector). -/
+theorem gate_stacked_to_var_any [Zero K] [One K] (d : Nat) (hs : List (List K)) (f : Bool) (hd : 0 < d)
+    (hl : hs.length = d ^ 2) (hr : ∀ r ∈ hs, r.length = d ^ 2) :
+    varOfHs hs f = some (gateVarOfStacked d hs.flatten f) := by
+  have h1 : 1 ≤ d ^ 2 := Nat.pow_pos hd
+  cases f
+  · simp [varOfHs, gateVarOfStacked]
+  · cases hs with
+    | nil => simp at hl; omega
+    | cons a t =>
+      have ha : a.length = d ^ 2 := hr a (by simp)
+      simp only [varOfHs, gateVarOfStacked, ↓reduceIte, List.flatten_cons, Option.some.injEq]
+      exact (List.drop_left' ha).symm
+
+/-- C03.2 POVM: `convert_stacked_vector_to_var` on the stacked vector of ANY list of `m` vectors of length `d²`
+(`m ≥ 2` with the constraint, `m ≥ 1` without) is `convert_vecs_to_var` of it. -/
+theorem povm_stacked_to_var_any [Add K] [Sub K] [Zero K] (d m : Nat) (sq : K) (vecs : List (List K)) (f : Bool)
+    (hd : 0 < d) (hm : 1 ≤ m) (hl : vecs.length = m) (hr : ∀ r ∈ vecs, r.length = d ^ 2) :
+    povmVarOfStacked d sq vecs.flatten f = varOfVecs vecs f := by
+  have h1 : 1 ≤ d ^ 2 := Nat.pow_pos hd
+  have hd0 : d ≠ 0 := by omega
+  have hfl : vecs.flatten.length = m * d ^ 2 := by rw [flatten_length_of _ vecs hr, hl]
+  have hrows : rows (d ^ 2) m vecs.flatten = vecs := by rw [← hl]; exact rows_of_flatten _ vecs hr
+  have hdiv : vecs.flatten.length / d ^ 2 = m := by rw [hfl]; exact Nat.mul_div_cancel _ h1
+  have hne : vecs.isEmpty = false := by
+    cases vecs with
+    | nil => simp at hl; omega
+    | cons a t => rfl
+  cases f
+  · simp [povmVarOfStacked, varOfVecs, hne]
+  · simp only [povmVarOfStacked, ↓reduceIte, vecsOfVar, hd0, Bool.false_eq_true, hdiv, reshape2_ok _ _ _ hfl, hrows,
+      Option.bind_eq_bind, Option.bind_some]
+
+
+example : ∃ var, varOfVec ([1/2, 3, 4, 5] : List Rat) true = some var ∧ (var.length : Int) = num_variables_qst 2 true :=
+  state_to_var_length 2 _ true (by decide) (by decide)
+example : povmVarOfStacked 1 (1 : Rat) [5, 7, -11] true = varOfVecs [[5], [7], [-11]] true :=
+  povm_stacked_to_var_any 1 3 1 [[5], [7], [-11]] true (by decide) (by decide) (by decide) (by decide)
 
 /-! ## clause "across a whole set of operations" -/
 
@@ -890,14 +964,66 @@ theorem local_total_roundtrip (S : Sizes) (t : Nat) (ht : t < S.total) :
       · exact key 3 S.mprocess rfl (by simp only [modeOfTotal, Sizes.first, Sizes.total]; rw [if_neg h0, if_neg (by omega), if_neg (by omega), if_pos ⟨by omega, ht⟩])
           (by simp [Sizes.first]; omega) (by simp [Sizes.first]; omega)
 
-/-- C03.5 `set_qoperations_from_var_total` slices `var_total` back into the blocks it was stacked from. -/
-theorem split_var_total (B : List (List K)) : splitBy (B.map List.length) B.flatten = B :=
-  splitBy_flatten B
+/-- C03.5 through the EXECUTED `index_var_total_from_local_info` (all four type groups, with the offsets between groups): the total
+index of (mode, operation k, local index j) points at that variable of that operation inside `var_total`. -/
+theorem total_index_points_at (B : Blocks K) (mode k j t : Nat) (blk : List (List K)) (hb : B.ofMode mode = some blk)
+    (hk : k < blk.length) (hj : j < blk[k].length)
+    (ht : totalFromLocal B.sizes mode k j = some t) : B.varTotal[t]? = some (blk[k][j]) := by
+  have hp := flatten_points_at blk k j hk hj
+  have hlt : nsum ((blk.map List.length).take k) + j < blk.flatten.length := by
+    by_contra hc
+    have := List.getElem?_eq_none (l := blk.flatten) (Nat.le_of_not_lt hc)
+    rw [this] at hp; cases hp
+  have hk' : k ≤ (blk.map List.length).length := by simp; omega
+  match mode, hb with
+  | 0, hb =>
+    simp only [Blocks.ofMode, Option.some.injEq] at hb; subst hb
+    simp only [totalFromLocal, Blocks.sizes, Sizes.ofMode, itemFirst, hk', ↓reduceIte, Option.bind_eq_bind,
+      Option.bind_some, Sizes.first, Option.some.injEq] at ht
+    subst ht
+    unfold Blocks.varTotal
+    rw [List.append_assoc, List.append_assoc, List.getElem?_append_left (by omega), ← hp]; congr 1; omega
+  | 1, hb =>
+    simp only [Blocks.ofMode, Option.some.injEq] at hb; subst hb
+    simp only [totalFromLocal, Blocks.sizes, Sizes.ofMode, itemFirst, hk', ↓reduceIte, Option.bind_eq_bind,
+      Option.bind_some, Sizes.first, Option.some.injEq] at ht
+    subst ht
+    unfold Blocks.varTotal
+    rw [List.append_assoc, List.append_assoc, List.getElem?_append_right (by simp only [flatten_len_nsum]; omega),
+      List.getElem?_append_left (by simp only [flatten_len_nsum] at *; omega), ← hp]
+    congr 1; simp only [flatten_len_nsum]; omega
+  | 2, hb =>
+    simp only [Blocks.ofMode, Option.some.injEq] at hb; subst hb
+    simp only [totalFromLocal, Blocks.sizes, Sizes.ofMode, itemFirst, hk', ↓reduceIte, Option.bind_eq_bind,
+      Option.bind_some, Sizes.first, Option.some.injEq] at ht
+    subst ht
+    unfold Blocks.varTotal
+    rw [List.getElem?_append_left (by simp only [List.length_append, flatten_len_nsum] at *; omega),
+      List.getElem?_append_right (by simp only [List.length_append, flatten_len_nsum]; omega), ← hp]
+    congr 1; simp only [List.length_append, flatten_len_nsum]; omega
+  | 3, hb =>
+    simp only [Blocks.ofMode, Option.some.injEq] at hb; subst hb
+    simp only [totalFromLocal, Blocks.sizes, Sizes.ofMode, itemFirst, hk', ↓reduceIte, Option.bind_eq_bind,
+      Option.bind_some, Sizes.first, Option.some.injEq] at ht
+    subst ht
+    unfold Blocks.varTotal
+    rw [List.getElem?_append_right (by simp only [List.length_append, flatten_len_nsum]; omega), ← hp]
+    congr 1; simp only [List.length_append, flatten_len_nsum]; omega
+  | n + 4, hb => simp [Blocks.ofMode] at hb
 
-/-- C03.5 the total index of (operation k, local j) inside one type group points at that variable in `var_total`. -/
-theorem var_total_points_at (B : List (List K)) (k j : Nat) (hk : k < B.length) (hj : j < B[k].length) :
-    B.flatten[nsum ((B.map List.length).take k) + j]? = some (B[k][j]) :=
-  flatten_points_at B k j hk hj
+/-- C03.5 the EXECUTED `set_qoperations_from_var_total` slices `var_total` back into exactly the blocks it was stacked from
+(and accepts it: the length check passes). -/
+theorem set_from_var_total_blocks (B : Blocks K) :
+    setFromVarTotal B.sizes B.varTotal = some (B.state ++ B.gate ++ B.povm ++ B.mprocess) := by
+  have := splitBy_flatten (B.state ++ B.gate ++ B.povm ++ B.mprocess)
+  simp only [List.map_append] at this
+  unfold setFromVarTotal Blocks.sizes Blocks.varTotal
+  simp only
+  rw [if_pos (by simp only [Sizes.total, List.length_append, flatten_len_nsum]), ← List.flatten_append,
+    ← List.flatten_append, ← List.flatten_append, this]
+
+example : totalFromLocal (Blocks.sizes (⟨[[1, 2, 3]], [], [[4, 5], [6, 7]], [[8]]⟩ : Blocks Rat)) 2 1 1 = some 6 ∧
+    (Blocks.varTotal (⟨[[1, 2, 3]], [], [[4, 5], [6, 7]], [[8]]⟩ : Blocks Rat))[6]? = some 7 := by decide +kernel
 
 /-! ## the hypotheses are satisfiable (concrete non-trivial instances) -/
 
